@@ -66,6 +66,7 @@ pub fn avoid_flags() -> Avoid {
                 "instr_in_param_default" => a.instr_in_param_default = true,
                 "if_direct" => a.if_direct = true,
                 "multi_directive" => a.multi_directive = true,
+                "bom_midfile" => a.bom_midfile = true,
                 "regex_literal_operand" => a.regex_literal_operand = true,
                 "spread_noniterable_literal" => a.spread_noniterable_literal = true,
                 "missing_proto_method" => a.missing_proto_method = true,
